@@ -24,6 +24,31 @@ def roundtrip(s, dc, ns, ctx):
     return text, stack
 
 
+_QE = {}
+
+
+def exec_roundtrip(s, dc, ns, ctx):
+    """the same round trip made by the program itself: `q` then the exec element `Ė`, under the given compression setting
+    (flag D = off)"""
+    from vyxal.transpile import transpile
+
+    if dc not in _QE:
+        _QE[dc] = compile(transpile("qĖ", dc), "<qE>", "exec")
+    ctx.dictionary_compression = dc
+    stack = [s]
+    ns["stack"] = stack
+    ctx.stacks.append(stack)          # as main.execute_vyxal registers the program's stack
+    try:
+        with sandbox.watchdog(10):
+            exec(_QE[dc], ns)
+    except sandbox.CaseTimeout:
+        raise RuntimeError("q then Ė does not terminate (10 s)")
+    finally:
+        ctx.dictionary_compression = True
+        del ctx.stacks[:]
+    return "qĖ", stack
+
+
 def guarded_roundtrip(s, dc, ns, ctx):
     """evaluating a string literal is immediate; a run that does not come back within 10 s (then 60 s) did not push the string"""
     for limit in (10, 60):
@@ -86,6 +111,15 @@ def _shard(args):
                 n += 1
                 part.outcome(classify(s, dc))
                 try:
+                    if history == "exec":
+                        text, stack = exec_roundtrip(s, dc, ns, ctx)
+                        ok = len(stack) == 1 and stack[0] == s and type(stack[0]) is str
+                        if not ok:
+                            part.violation("string", {"string": s, "dict_compress": dc, "alphabet": alphabet_name, "via": "qĖ"},
+                                           "quote then exec element differs (dict_compress=%s)" % dc,
+                                           {"class": classify(s, dc), "dict_compress": dc, "via": "exec element"}, [s],
+                                           [repr(x) for x in stack], size=len(s))
+                        continue
                     if history == "kinds":
                         other_kinds_first(s, dc, ns)
                     elif history:
@@ -101,7 +135,7 @@ def _shard(args):
                 if not ok:
                     part.violation("string", {"string": s, "dict_compress": dc, "alphabet": alphabet_name, "quoted": text},
                                    "quote/evaluate round trip differs (dict_compress=%s)" % dc,
-                                   {"class": classify(s, dc), "dict_compress": dc, "after_other_setting": bool(history) and history != "kinds",
+                                   {"class": classify(s, dc), "dict_compress": dc, "after_other_setting": bool(history) and history not in ("kinds", "exec"), "via_exec_element": history == "exec",
                                     "after_other_kinds": history == "kinds"}, [s],
                                    obs if isinstance(obs, str) else [repr(x) for x in obs], size=len(s))
     part.count(n)
@@ -136,6 +170,10 @@ def run(tier, seed):
     shards += [([c], "codepage", 2, False, "kinds") for c in cp]
     shards += [([c], "ascii", 2, True, "kinds") for c in ASCII]
     shards += [([c], "esc", 3, False, "kinds") for c in ESC]
+    # ... and the round trip made inside a program: q then the exec element, under flag D (compression off) and without it
+    shards += [([c], "codepage", 2 if quick else 3, False, "exec") for c in cp]
+    shards += [([c], "ascii", 2, True, "exec") for c in ASCII]
+    shards += [([c], "esc", 3, False, "exec") for c in ESC]
     shards.append(([""], "esc", 1, False))
     shards.append(([""], "esc", 1, True))
     explore.pmap(_shard, shards, rep, seed)
@@ -151,7 +189,7 @@ def run(tier, seed):
     rep.extra["allow_skips"] = True
     rep.rule = ("all strings of length <=3 over the escape-relevant set %r (compression off; ASCII ones also on); all "
                 "strings of length <=%d over the 256-character code page, compression off; all printable-ASCII strings "
-                "of length <=%d, compression on; plus two-step histories (the same literal first evaluated with the other compression setting in the same process) for all strings <=2 over the code page / ASCII and <=3 over the escape set, and the same sets after a compressed-string and a compressed-number literal with the same body text. Every string is distinct and counts as non-trivial." % (
+                "of length <=%d, compression on; plus two-step histories (the same literal first evaluated with the other compression setting in the same process) for all strings <=2 over the code page / ASCII and <=3 over the escape set, and the same sets after a compressed-string and a compressed-number literal with the same body text; and the round trip made by a program itself (q then the exec element) under both compression settings. Every string is distinct and counts as non-trivial." % (
                     "".join(ESC), L, 3))
     import random
 
